@@ -240,13 +240,14 @@ def apply_param_filter(el, prop):
         return name not in prop.params
 
     try:
-        value = prop.params[name]
+        values = prop.params[name]
     except KeyError:
         return False
 
     for subel in el:
         if subel.tag == "{urn:ietf:params:xml:ns:carddav}text-match":
-            if not apply_text_match(subel, value):
+            # A parameter can carry several values (e.g. TYPE=home,voice).
+            if not any(apply_text_match(subel, value) for value in values):
                 return False
         else:
             raise AssertionError("unknown tag %r in param-filter", subel.tag)
